@@ -166,12 +166,14 @@ Record jfile := mkJfile {
   jf_elements : list element
 }.
 
-(* a hand-written .proto file of a local package: its top-level message and enum names *)
+(* a hand-written .proto file of a local package: its top-level message and enum names, and
+   the value names of those enums (they live in the package scope) *)
 Record pfile := mkPfile {
   pf_dir : list str;
   pf_base : str;                      (* without ".proto" *)
   pf_msgs : list str;
-  pf_enums : list str
+  pf_enums : list str;
+  pf_values : list str
 }.
 
 Inductive bfile := BJ (f : jfile) | BP (f : pfile).
